@@ -30,12 +30,13 @@ def run(tier, replay=None):
     ok = dict(workers=wk, timeout=1500, required_actions=("Step",))
     cex = dict(workers=2, timeout=600, expect="violation", coverage=False)
     jobs = [("Scte35_MC", "Scte35_quick.cfg", ok),
-            ("Scte35_MC", "Scte35_impl_small.cfg", dict(ok, workers=2)),
+            ("Scte35_MC", "Scte35_cur_quick.cfg", dict(ok, workers=2)),   # CreateEmsgAhead as it is now (28a0bd0)
             ("Scte35_MC", "Scte35_impl.cfg", dict(cex, expect_violated=("RuleAccepted",))),
             ("Scte35_MC", "Scte35_both.cfg", dict(cex, expect_violated=("NoDup",))),
             ("Scte35_MC", "Scte35_neither.cfg", dict(cex, expect_violated=("NoMissing",)))]
     if thorough:
-        jobs += [("Scte35_MC", "Scte35_alt_quick.cfg", ok), ("Scte35_MC", "Scte35_thorough.cfg", ok), ("Scte35_MC", "Scte35_thirds_thorough.cfg", ok), ("Scte35_MC", "Scte35_fix.cfg", ok)]
+        jobs += [("Scte35_MC", "Scte35_alt_quick.cfg", ok), ("Scte35_MC", "Scte35_thorough.cfg", ok), ("Scte35_MC", "Scte35_thirds_thorough.cfg", ok), ("Scte35_MC", "Scte35_fix.cfg", ok),
+                 ("Scte35_MC", "Scte35_impl_small.cfg", dict(ok, workers=2))]
     pool = ThreadPoolExecutor(max_workers=1)
     mfut = pool.submit(c.models, jobs, 2 if not thorough else 3)
 
@@ -58,7 +59,7 @@ def run(tier, replay=None):
     for (m, cfgn, kw), r in zip(jobs, res):
         if kw.get("expect") == "violation" and r.status == "ok":
             raise MachineryError(f"model {cfgn}: the expected counterexample {kw.get('expect_violated')} was not found (monitor too weak)")
-    c.extra["design_counterexamples"] = {"CreateEmsgAhead_as_written (rule impl)": res[2].violated, "closed_both_ends": res[3].violated,
+    c.extra["design_counterexamples"] = {"CreateEmsgAhead_before_28a0bd0 (rule impl)": res[2].violated, "closed_both_ends": res[3].violated,
                                          "open_both_ends": res[4].violated}
 
     grid = {"scenarios": 0, "start_multiple_of_60": 0, "other_start": 0, "other_start_media_minutes_accepted": 0,
